@@ -235,3 +235,32 @@ def run(ck):
     wit = cfg.must_pass_from((cfg.entry, -1), lambda e, s_=set(stamp): e in s_ or any(ac.is_in(x, e) for x in s_) and ac.nodes[e]['k'] == 'ExprWithCleanups') if stamp else ['no assignment']
     ck.ob('C06.supersede', 'C06.supersede/expiry-from-this-ttl', wit is None, ac.loc(),
           'every call of add_contact stamps contact.expires_at = now + ttl (an expiry carried in by the caller must not survive)', wit)
+
+    # ---- one locator per chunk id: the provider map is keyed by the full id (chunk_id_to_string of the chunk_id parameter) --------------
+    # (a shortened or lossy key merges the provider lists of different chunks: lookups return, and withdrawals remove, another chunk's providers)
+    nkey = 0
+    for f in P.fns:
+        if not f.q.startswith(KT):
+            continue
+        for i in f.walk():
+            nd = f.nodes[i]
+            c = nd.get('callee') or ''
+            key_arg = None
+            if nd['k'] == 'CXXOperatorCallExpr' and nd.get('op') == '[]' and any(f.nodes[j]['k'] == 'MemberExpr' and f.nodes[j].get('m') == KT + 'table_' for j in f.walk(f.kids(i)[1])):
+                key_arg = f.kids(i)[2]
+            elif nd['k'] == 'CXXMemberCallExpr' and c.split('::')[-1] in ('find', 'erase', 'at', 'count', 'contains', 'try_emplace', 'emplace', 'insert_or_assign') and \
+                    f.receiver(i) is not None and f.nodes[f.strip(f.receiver(i))].get('m') == KT + 'table_' and f.call_args(i):
+                a0 = f.call_args(i)[0]
+                if 'iterator' in (f.nodes[f.strip(a0)].get('t') or ''):
+                    continue
+                key_arg = a0
+            if key_arg is None:
+                continue
+            nkey += 1
+            ck.touch(f)
+            calls = [j for x in origin_chain(f, key_arg) for j in f.walk(x) if f.nodes[j]['k'] == 'CallExpr']
+            ok_k = len(calls) >= 1 and all((f.nodes[j].get('callee') or '').endswith('chunk_id_to_string') for j in calls) and \
+                any(f.nodes[x]['k'] == 'DeclRefExpr' and f.nodes[x].get('dk') == 'ParmVar' for j in calls for x in f.walk(j))
+            ck.ob('C06.key', 'C06.key/%s#%d' % (f.name.split('::')[-1], nkey), ok_k, f.loc(i),
+                  'table_ is indexed by chunk_id_to_string(<chunk id parameter>) — the full, fixed-width id')
+    ck.floor('C06.key', 'keyed accesses to the provider map', nkey, 3)
